@@ -17,6 +17,10 @@ EXPLANATION = (
     "separate. NOT decided: that groupby groups are contiguous (segment labels are non-decreasing by C05.e), pandas groupby/"
     "concat semantics."
 )
+# obligations added during the build phase (seeding rounds, twins, mutation analysis)
+ADDED_IN_BUILD = " Also: the segments are the groups of ChangeDetector.sparse_to_dense's labels, whose C05.e DENSE-FILL obligations are re-run here (a dropped last changepoint merges two segments)."
+EXPLANATION = EXPLANATION + ADDED_IN_BUILD
+
 ASSUMPTIONS = [
     "Python's ast module and evaluation-order/argument-binding semantics as implemented in skverif/symex.py",
     "library model table skverif/models.py (DataFrame.groupby iterates (key, sub-frame) pairs; a frame built from a dict of arrays has a fresh RangeIndex)",
